@@ -550,6 +550,132 @@ def stage_uuid(rep, rng, n_hist):
     return dis, bad
 
 
+# ----------------------------------------------------------------------------- the real msbuild writer over histories
+class _WStep:
+    def __init__(self, name, deps=(), broken=False):
+        self.name, self.deps, self.broken = name, list(deps), broken
+
+
+_handlers_registered = []
+
+
+def _register_handlers():
+    from bfg9000.backends.msbuild import writer
+    if _handlers_registered:
+        return writer
+
+    @writer.rule_handler(_WStep)
+    def _h(rule, build_inputs, solution, env):
+        if rule.broken:
+            raise NotImplementedError('msbuild backend does not support %r' % rule.name)
+        solution[rule.name] = writer.NoopProject(env, name=rule.name, dependencies=[solution[d] for d in rule.deps])
+    _handlers_registered.append(True)
+    return writer
+
+
+def stage_writer_histories(rep, rng, n_hist):
+    """Direct property check on bfg9000.backends.msbuild.writer.write itself: histories of configure/regenerate runs
+    (projects added, kept, removed, re-added; runs that FAIL part-way because the script temporarily contains a step the
+    backend cannot represent) in a real build directory; GUIDs read back from the written .sln."""
+    import re as _re
+    from bfg9000.path import Path, Root
+    writer = _register_handlers()
+    bad = 0
+    proj_re = _re.compile(r'^Project\("(\{[^}]+\})"\) = "([^"]*)", "([^"]*)", "(\{[^}]+\})"$')
+    dep_re = _re.compile(r'^\t\t(\{[^}]+\}) = (\{[^}]+\})$')
+    for h in range(n_hist):
+        d = common.scratch('c20w')
+        try:
+            class Env:
+                srcdir = Path(os.path.join(d, 'src'), Root.absolute)
+                builddir = Path(os.path.join(d, 'build'), Root.absolute)
+
+                def getvar(self, name, default=''):
+                    return default
+
+                @property
+                def base_dirs(self):
+                    return {Root.srcdir: self.srcdir, Root.builddir: self.builddir}
+
+            class PI:
+                name = 'sol'
+
+            class BI:
+                def __init__(self, steps):
+                    self.steps = steps
+
+                def edges(self):
+                    return list(self.steps)
+
+                def __getitem__(self, k):
+                    return PI
+            os.makedirs(os.path.join(d, 'build'))
+            pool = ['lib', 'util', 'app', 'tests', 'tool', 'gen']
+            present = set(rng.sample(pool, rng.randint(2, 4)))
+            last = {}          # name -> guid at the last successful run
+            alive = set()      # names present in every run since that one (failed runs included)
+            trace = []
+            for run_i in range(rng.randint(4, 9)):
+                op = rng.random()
+                if op < 0.25 and len(present) > 1:
+                    present.discard(rng.choice(sorted(present)))
+                elif op < 0.5:
+                    present.add(rng.choice(pool))
+                order = [n for n in pool if n in present]
+                steps = []
+                for i, n in enumerate(order):
+                    deps = [x for x in order[:i] if rng.random() < 0.4]
+                    steps.append(_WStep(n, deps))
+                fail_at = rng.randrange(len(steps) + 1) if rng.random() < 0.3 else None
+                if fail_at is not None:
+                    steps.insert(fail_at, _WStep('unsupported', broken=True))
+                ok = True
+                try:
+                    os.chdir(os.path.join(d, 'build'))
+                    writer.write(Env(), BI(steps))
+                except NotImplementedError:
+                    ok = False
+                finally:
+                    os.chdir(common.VERIF)
+                trace.append({'projects': order, 'fails_before_index': fail_at, 'ok': ok})
+                alive &= set(order)
+                if not ok:
+                    continue
+                guids, deps, cur = {}, {}, None
+                for line in open(os.path.join(d, 'build', 'sol.sln')).read().splitlines():
+                    m = proj_re.match(line)
+                    if m:
+                        cur = m.group(2)
+                        guids[cur] = m.group(4)
+                        deps[cur] = []
+                    elif line == 'EndProject':
+                        cur = None
+                    elif cur is not None and dep_re.match(line):
+                        deps[cur].append(dep_re.match(line).group(1))
+                msg = None
+                if sorted(guids) != sorted(order):
+                    msg = 'solution lists projects %r, the script has %r' % (sorted(guids), sorted(order))
+                elif len(set(guids.values())) != len(guids):
+                    msg = 'GUIDs are not unique: %r' % guids
+                elif any(g not in guids.values() for n in deps for g in deps[n]):
+                    msg = 'a dependency GUID refers to no project of the solution'
+                else:
+                    for n in alive:
+                        if n in guids and last.get(n) not in (None, guids[n]):
+                            msg = 'GUID of %r changed from %s to %s although the project existed in every run in between' % (n, last[n], guids[n])
+                rep.case('wh:%d:%d:%r' % (h, run_i, trace[-1]), True)
+                if msg:
+                    bad += 1
+                    rep.fail('msbuild writer history: ' + msg, {'history': trace, 'guids': guids}, classes=())
+                    break
+                last = dict(guids)
+                alive = set(order)
+        finally:
+            shutil.rmtree(d, ignore_errors=True)
+    rep.stage('oracle:msbuild.writer histories', histories=n_hist, failures=bad)
+    return bad
+
+
 def run(rep):
     rng = random.Random(rep.seed)
     thorough = rep.tier == 'thorough'
@@ -571,6 +697,7 @@ def run(rep):
             found_input=False)
     nh = 400 if thorough else 60
     udis, ubad = stage_uuid(rep, rng, nh)
+    ubad += stage_writer_histories(rep, rng, 150 if thorough else 25)
     if udis and not ubad:
         _, ubad = stage_uuid(rep, rng, nh * 10)       # search with a 10x budget for a failing history
         if not ubad:
